@@ -134,6 +134,7 @@ static void emit_threads() {
     oprintf("]");
 }
 void (*on_die)();
+extern "C" void __gcov_dump() __attribute__((weak));
 static volatile int dying;
 [[noreturn]] static void die_with(const char *kind, int code, const char *cls, const char *msg) {
     if (__atomic_exchange_n(&dying, 1, __ATOMIC_SEQ_CST)) { for (;;) pause(); }
@@ -148,6 +149,7 @@ static volatile int dying;
     oprintf("}\n"); oflush();
     if (on_die) on_die(); else probes_dump();
     oflush();
+    if (__gcov_dump) __gcov_dump();          // only in the coverage build of bin/coverage
     _exit(code);
 }
 [[noreturn]] void violation(const char *cls, const char *fmt, ...) {
